@@ -152,6 +152,35 @@ def describe(c):
     return d
 
 
+def in_join_clause(sql, marker):
+    """does the marker occur inside the parenthesised table expression / ON condition that follows a JOIN keyword?  (baseline
+    statements only: the marker is harmless, so brackets are balanced outside literals and inside the wrapped regex literals)"""
+    k = 0
+    while True:
+        j = sql.find(b" JOIN ", k)
+        if j < 0:
+            return False
+        # the clause = everything up to the next keyword of the enclosing select at the same bracket depth
+        depth, i, n = 0, j + 6, len(sql)
+        while i < n:
+            ch = sql[i:i + 1]
+            if ch == b"(":
+                depth += 1
+            elif ch == b")":
+                depth -= 1
+                if depth < 0:
+                    break
+            elif depth == 0 and any(sql.startswith(kw, i) for kw in (b" WHERE ", b" PREWHERE ", b" GROUP BY ", b" ORDER BY ", b" LIMIT ", b" HAVING ", b" UNION ")):
+                break
+            i += 1
+        if marker in sql[j:i]:
+            return True
+        k = j + 6
+
+
+DIRECTIVE = b"%$?{@:"
+
+
 def run_correspondence(ck, known):
     if not ck.go_build("sqlinject"):
         ck.obligation("harness sqlinject builds against the repository", False, ck.build_out[-1500:])
@@ -175,6 +204,7 @@ def run_correspondence(ck, known):
     total, verd_all, by_id, hist, sites, rejs = 0, {}, {}, {}, {}, {}
     shaped_sites, shaped_cls, whole_cls, re_sites, grid = {}, {}, {}, set(), {}
     distinct = set()
+    dgrid, join_sites, directive_in_join = {}, {}, {}
     nbad_base = 0
     tq_pairs = []
     for tag, path in runs:
@@ -232,8 +262,20 @@ def run_correspondence(ck, known):
                 else:
                     whole_cls[c["class"]] = whole_cls.get(c["class"], 0) + 1
             v = bytes.fromhex(c["val"])
+            if c["class"] == "grid:directive" and c["stmt"] == 0:
+                dgrid.setdefault(c["site"], set()).add(c["val"])
+            b = c.get("_base")
+            if b is not None and c["mode"] != "raw":
+                if "_in_join" not in b:
+                    mkb = bytes.fromhex(b["marker"])
+                    b["_in_join"] = bool(mkb) and in_join_clause(bytes.fromhex(b["sql"]), mkb)
+                if b["_in_join"]:
+                    join_sites[c["site"]] = join_sites.get(c["site"], 0) + 1
+                    if any(ch in v for ch in DIRECTIVE):
+                        directive_in_join[c["site"]] = directive_in_join.get(c["site"], 0) + 1
             if any(ch in v for ch in b"'\\\x00\n\r\x08\t\x1a%_-/*#") or any(ch >= 0x80 for ch in v):
                 distinct.add(c["site"] + "|" + c["val"])
+    run_fmt_tie(ck)
     ck.obligation("every site has a baseline statement", nbad_base == 0, "%d cases without baseline" % nbad_base)
     # round 4: a position whose requests are all rejected (or die in the harness) is not covered at all: the three PromQL regex-matcher
     # positions were in that state (hand-built labels.Matcher without compiled expression), unnoticed
@@ -288,6 +330,20 @@ def run_correspondence(ck, known):
     ck.obligation("every regex-carrying position (%d) has hostile strings inside shaped regular expressions judged against the same shape around the marker: %d cases, per shape class %s"
                   % (len(re_sites), sum(shaped_sites.values()), shaped_cls), not thin and len(shaped_cls) >= 7 and len(re_sites) >= 30,
                   "too few shaped cases at: %s" % thin)
+    # round 5 (seeded C10-e: the rendered joined select used as a fmt format string).  (a) the directive grid: every position that takes
+    # arbitrary bytes gets `%'`, `a%sb`, `%%'`, `%[1]s%!d` in every run; (b) positions whose value is rendered INSIDE a JOIN clause
+    # (later Tempo tags, cluster mode with inlined WITHs, later TraceQL selectors, Pyroscope joins) exist for every query language and
+    # receive directive strings
+    value_sites = sorted(st for st in allsites if ".ident." not in st)
+    thin_d = sorted(st for st in value_sites if len(dgrid.get(st, ())) < (3 if st != "stringval" else 0))
+    fam = {f: sorted(st for st in join_sites if st.startswith(f)) for f in ("logql.", "tempo.", "traceql.")}
+    nojoin = sorted(f for f, l in fam.items() if not [st for st in l if directive_in_join.get(st, 0) >= 3])
+    ck.obligation("directive grid: each of the %d value positions has fmt-verb / placeholder strings (%%', a%%sb, %%%%', %%[1]s%%!d) evaluated in every run; positions whose value is rendered inside a JOIN clause: %d (%s), each family with directive strings there"
+                  % (len(value_sites), len(join_sites), {f: len(l) for f, l in fam.items()}), not thin_d and not nojoin,
+                  "fewer than 3 directive strings evaluated at: %s; no position inside a JOIN clause with directive strings for: %s" % (thin_d[:8], nojoin))
+    ck.extra["directive_strings"] = {"grid_values_evaluated_per_position": {k: len(v) for k, v in sorted(dgrid.items())},
+                                     "positions_whose_value_is_rendered_inside_a_JOIN_clause_[cases]": join_sites,
+                                     "cases_with_a_directive_byte_(%$?{@:)_inside_a_JOIN_clause": directive_in_join}
     ck.extra["shaped_regex_cases"] = {"per_site_judged_against_the_shaped_baseline": shaped_sites,
                                       "grid_shapes_judged_against_the_shaped_baseline_per_site_(of_13)": {k: len(v) for k, v in grid.items()}, "per_shape_class": shaped_cls,
                                       "shaped_value_judged_against_the_plain_marker_(structure_of_the_expression_differs_from_the_marker's,_or_a_literal_handled_by_doLike)": whole_cls}
@@ -540,6 +596,12 @@ def run_sites(ck):
         for p in s["pieces"]:
             if p["t"] == "arg":
                 ck.extra["sql_sites"]["argument_classes"][p["k"]] = ck.extra["sql_sites"]["argument_classes"].get(p["k"], 0) + 1
+    # round 5: the analyser's reading of every constant format (text / operand / text ...) is compared with what package fmt prints
+    # for that format over sentinel operands; a non-constant format is KUnclassified whatever it is made of (seeded C10-e)
+    fc = meta.get("fmt_checks") or {}
+    ck.extra["sql_sites"]["constant_formats_[decomposed,compared_with_package_fmt,differ]"] = [fc.get("Sites"), fc.get("Compared"), fc.get("Differ")]
+    ck.obligation("the analyser's decomposition of the constant Sprintf formats agrees with package fmt's own output over sentinel operands (%s of %s formats compared)"
+                  % (fc.get("Compared"), fc.get("Sites")), fc.get("Differ") == 0 and (fc.get("Compared") or 0) >= 80, json.dumps(fc))
     detail = ""
     if bad:
         rows = []
@@ -608,6 +670,61 @@ def run_wsites(ck):
                       "site": st[0] if st else {"file": f, "line": ln}, "all_unsafe_sites": bad,
                       "explanation": "model/WSites.v wsite_ok rejects this site of coq/gen/GenC10WSites.v (theorem no_request_string_reaches_a_writer_statement no longer holds)"},
                      no_input=True)
+
+
+FMT_OPS = [b"INNER ANY", b"zq'x", b"third"]
+
+
+def run_fmt_tie(ck):
+    """model/GoFmt.v (fmt's doPrintf over string operands) against the real fmt.Sprintf on generated formats (round 5)"""
+    import random
+    rnd = random.Random(int(ck.seed))
+    texts = [b"a", b" JOIN ", b"'", b"\\", b"(", b")", b"x'y", b"match(", b", ", b"\\'", b"--", b"\n", b"\x00", b"\xc3\xa9", b"=", b""]
+    verbs = [b"%s", b"%v", b"%d", b"%%", b"%'", b"%\\", b"%!", b"%", b"%z", b"%S", b"%)", b"%s%s", b"%%%s", b"%\n", b"%,", b"%(", b"%;", b"%_",
+             b"%q", b"%x", b"%5s", b"%[1]s", b"%-s", b"%.2s", b"%*d", b"%+v", b"%#v", b"% s", b"%\xc3\xa9", b"%T", b"%w", b"%0d"]
+    fixed = [b" %s JOIN (SELECT 1 WHERE val == '%\\'')", b" %s JOIN '50%%off'", b" %s JOIN 'a%sb'", b"match(%s, %s)", b"%s", b"", b"%", b"%%", b"%!(NOVERB)",
+             b"no verbs at all", b"%s %s %s %s"]
+    cases = [(f, n) for f in fixed for n in (0, 1, 2, 3)]
+    for _ in range(int(ck.n(260, 3000))):
+        k = rnd.randint(1, 5)
+        # the first 18 verbs lie inside the modelled fragment: most pieces come from them (a single outside verb puts the format outside)
+        f = b"".join(rnd.choice(texts) + (rnd.choice(verbs[:18]) if rnd.random() < 0.93 else rnd.choice(verbs)) for _ in range(k)) + rnd.choice(texts)
+        cases.append((f, rnd.randint(0, 3)))
+    inp = os.path.join(ck.work, "fmt_in.jsonl")
+    with open(inp, "w") as fh:
+        for f, n in cases:
+            fh.write(json.dumps({"site": "gofmt", "val": f.hex(), "nargs": n}) + "\n")
+    outp = os.path.join(ck.work, "fmt_out.jsonl")
+    rc, out = ck.go_run("sqlinject", ["--cases", inp, "--out", outp])
+    rows = [json.loads(l) for l in open(outp)] if rc == 0 and os.path.exists(outp) else []
+    rows = [r for r in rows if r.get("kind") == "fmt"]
+    if not ck.obligation("harness sqlinject printed the generated formats with the real fmt.Sprintf (%d)" % len(rows), rc == 0 and len(rows) == len(cases), out[-800:]):
+        return
+    cs = vcheck.coq_string
+    body = ";\n  ".join("(%s, [%s], %s)" % (cs(bytes.fromhex(r["format"])), "; ".join(cs(o) for o in FMT_OPS[:r["nargs"]]), cs(bytes.fromhex(r["out"]))) for r in rows)
+    txt = ("From Coq Require Import List String Ascii.\nFrom Qryn Require Import model.GoFmt.\nImport ListNotations.\nOpen Scope string_scope.\n"
+           "Definition cases : list fmt_case := [\n  " + body + "].\n"
+           "Definition R := Eval vm_compute in map fmt_verdict cases.\nPrint R.\n")
+    rc, out = ck.coq_eval("C10_gofmt", txt)
+    flat = " ".join(out.split())
+    m = re.search(r"R = \[(.*?)\]\s*: list nat", flat)
+    if rc != 0 or not m:
+        ck.obligation("model/GoFmt.v evaluated on the generated formats", False, out[-1500:])
+        return
+    verd = [int(x) for x in re.findall(r"\d+", m.group(1))]
+    bad = [r for r, v in zip(rows, verd) if v == 1]
+    inside = sum(1 for v in verd if v == 0)
+    ck.obligation("model/GoFmt.v = package fmt: fmt_go format operands is what the real fmt.Sprintf printed, on %d generated formats inside the modelled fragment (%d outside it: flags, index, width, precision, %%q %%x %%T)"
+                  % (inside, sum(1 for v in verd if v == 2)), not bad and inside >= 100 and len(verd) == len(rows),
+                  "; ".join("%r/%d -> %r" % (bytes.fromhex(r["format"]), r["nargs"], bytes.fromhex(r["out"])) for r in bad[:3]))
+    if bad:
+        r = bad[0]
+        ck.violation({"property": "C10", "kind": "model/GoFmt.v disagrees with package fmt", "format": bytes.fromhex(r["format"]).decode("utf8", "backslashreplace"),
+                      "nargs": r["nargs"], "fmt_printed": bytes.fromhex(r["out"]).decode("utf8", "backslashreplace"),
+                      "broken": "correspondence model/GoFmt.v vs package fmt"}, no_input=True)
+    ck.extra["gofmt_tie"] = {"formats": len(rows), "inside_the_modelled_fragment": inside, "outside": sum(1 for v in verd if v == 2)}
+    with vcheck_lock():
+        ck.coverage["evaluations"] += inside
 
 
 BLOCK_START = re.compile(r"^(Theorem|Corollary|Example|Lemma)\s+([A-Za-z_][\w']*)")
